@@ -922,7 +922,8 @@ def work_criteria(task, res: Result):
     if lhs_model > rhs_model + CRIT_SLACK or 1 - np.trace(An @ An).real < -CRIT_SLACK or 1 - np.trace(Bn @ Bn).real < -CRIT_SLACK:
         raise InfraError(f"Zhang bound {lhs_model} <= {rhs_model} fails on a separable-by-construction input: contradicts zhang_criterion_svd (harness or model wrong)")
     res.case({"fn": "crit/zhang", "dA": dA, "dB": dB, "rho": digest(rho)}, nontrivial, f"criteria/zhang/{dA}x{dB}/" + ("tight" if lhs_model > rhs_model - 1e-9 else "slack"))
-    if abs(lhs_impl - lhs_model) > CRIT_SLACK or abs(rhs_impl - rhs_model) > 1e-9 or lhs_impl > 1e-8 + rhs_impl:
+    # the bound is a square root: rounding noise 1e-16 in a radicand that is exactly 0 (a pure marginal) becomes 1e-8 in the root, so the radicands are compared
+    if abs(lhs_impl - lhs_model) > CRIT_SLACK or abs(rhs_impl ** 2 - rhs_model ** 2) > 1e-9 or lhs_impl > 1e-8 + rhs_impl:
         viol(f"Zhang test: toqito evaluates {lhs_impl!r} vs bound {rhs_impl!r}; exact quantities {lhs_model!r} <= {rhs_model!r} on {dA}x{dB}", NECESSARY_THEOREMS["zhang"],
              {"impl": [lhs_impl, rhs_impl], "model": [lhs_model, rhs_model]})
     # (3) reduction criterion (not a branch of the cascade; the Breuer-Hall map refines it)
